@@ -26,10 +26,6 @@ from vlib import core
 # reader / writer variants by case position (lengths 16 and 5 are coprime: every pair occurs)
 READER_ROT = [0, 1, 2, 0, 3, 4, 0, 5, 6, 0, 7, 8, 0, 9, 10, 11]
 WRITER_ROT = [0, 1, 0, 2, 3]
-# quick tier: size profiles up to this weight (vertices + faces) always run, heavier ones by rotation class
-QUICK_ALWAYS_W = 600
-
-
 def assign_io(cases, seed):
     for i, c in enumerate(cases):
         c["cid"] = i        # what the harness varies with the case number stays the same in a replay
@@ -38,9 +34,9 @@ def assign_io(cases, seed):
             c["wio"] = WRITER_ROT[(seed * 3 + i) % len(WRITER_ROT)]
 
 
-def sized_profiles(ctx, cfg, always_w):
+def sized_profiles(ctx, cfg):
     """Size profiles from specs/ObjStlSizes.tla (TLC enumerates them and checks the coverage ASSUMEs).
-    quick: every profile of weight <= always_w plus the rotation class of the seed; thorough: all."""
+    quick: every profile the specification marks as core plus the rotation class of the seed; thorough: all."""
     d = ctx.scratch("gen-sizes-" + cfg.replace(".cfg", ""))
     r = core.run_tlc(d, "ObjStlSizes", cfg, workers=2, timeout=600, heap="2g")
     if r.rc != 0:
@@ -51,10 +47,10 @@ def sized_profiles(ctx, cfg, always_w):
         raise core.Infra("ObjStlSizes/%s printed no profile" % cfg)
     prof.sort(key=lambda v: json.dumps(v, sort_keys=True))      # TLC's print order depends on its workers
     nrot = 1 + max(v["rot"] for v in prof)
-    sel = [v for v in prof if ctx.tier != "quick" or v["w"] <= always_w or v["rot"] == ctx.seed % nrot]
+    sel = [v for v in prof if ctx.tier != "quick" or v["core"] or v["rot"] == ctx.seed % nrot]
     out = []
     for i, v in enumerate(sel):
-        c = {k: x for k, x in v.items() if k not in ("w", "rot")}
+        c = {k: x for k, x in v.items() if k not in ("w", "rot", "core")}
         c["weight"] = v["w"]
         for key in ("seeded", "text"):
             if key in c:
@@ -137,8 +133,7 @@ def collect_cases(ctx, vh):
     notes["random_cases"] = len(rnd)
     cases += rnd
     # (4) size profiles (round 2): vertex / face / corner counts around multiples of round numbers
-    r, sized, nprof = sized_profiles(ctx, "ObjStlSizesObjQuick.cfg" if tier == "quick" else "ObjStlSizesObjBig.cfg",
-                                     QUICK_ALWAYS_W)
+    r, sized, nprof = sized_profiles(ctx, "ObjStlSizesObjQuick.cfg" if tier == "quick" else "ObjStlSizesObjBig.cfg")
     notes["size_profiles_enumerated"] = nprof
     notes["size_profiles_run"] = len(sized)
     notes["size_profile_sizes"] = sorted({c["size"] for c in sized})
